@@ -39,6 +39,13 @@ from vlib import sut, tlc, tours, tracecheck, runner
 
 SPEC = os.path.join(os.path.dirname(os.path.dirname(os.path.abspath(__file__))), "specs", "dict")
 EXEC_TIMEOUT = int(os.environ.get("C16_EXEC_TIMEOUT", "240"))
+# processes / TLC runs at a time: the defaults are for a 16-core machine; C16_PAR=n (n < 12) scales them down when the
+# machine is shared (results do not depend on it)
+PAR = max(1, min(12, int(os.environ.get("C16_PAR", "12"))))
+
+
+def scaled(n):
+    return max(1, n * PAR // 12)
 EMITTING = ("init", "add", "check", "scan", "jsgf", "align")
 WS = b" \t\r\n"
 
@@ -263,7 +270,7 @@ def run_one(drv, ex, work, force=False):
 
 
 def run_many(drv, execs, work, par=12):
-    with concurrent.futures.ThreadPoolExecutor(max_workers=par) as pool:
+    with concurrent.futures.ThreadPoolExecutor(max_workers=scaled(par)) as pool:
         return list(pool.map(lambda e: run_one(drv, e, work), execs))
 
 
@@ -332,7 +339,7 @@ def classify_events(lines):
             elif exp >= 0 and not ((c[0] == 0 and c[1] == 0) if len(ev["toks"]) >= 2 else c[2] == 0):
                 ph = evs[0]["phones"]
                 tri = "%s(%s,%s)" % tuple(ph[x] if 0 <= x < len(ph) else "?" for x in c[3:6])
-                note(i, pre + "-not-realised-by-its-pronunciation",
+                note(i, "add:not-realised-by-its-pronunciation",
                      "the context tables the search reads for the new word differ from the model definition's triphones of its "
                      "pronunciation for %s left / %s right / %s single-phone contexts, first %s"
                      % (c[0], c[1], c[2], tri))
@@ -372,14 +379,14 @@ def classify_events(lines):
             elif absent and k == "align" and ev["ret"] == 0:
                 note(i, "use:align-absent-word-accepted", "returned 0")
             elif tw and tw[0] == 1 and (tw[1] != d.n or tw[2] != d.n):
-                note(i, "use:%s-file-dictionary-differs-from-additions" % k,
+                note(i, "use:file-dictionary-differs-from-additions",
                      "a dictionary file holding the loaded file plus the added words gives %d entries, %d of the %d live "
                      "entries are in it unchanged" % (tw[1], tw[2], d.n))
             elif tw and tw[0] == 1 and tw[3] != tw[4]:
                 def show(r):
                     return "ret %d hyp %r score %d seg %s" % (r[0], b" ".join(bytes(x) for x in r[1][2])[:60], r[1][1],
                                                             [(bytes(x[0]).decode("latin-1")[:12], x[1], x[2], x[3]) for x in r[1][3]][:8])
-                note(i, "use:%s-result-differs-from-file-dictionary" % k,
+                note(i, "use:result-differs-from-file-dictionary",
                      "words added at run time: %s; the same words read from the dictionary file: %s" % (show(tw[3]), show(tw[4])))
             elif ev["called"] == 1 and ev["ret"] == 0 and ev["dec"] >= 1:
                 if ev["hf"] == 0:
@@ -571,6 +578,41 @@ def probe_execs(rng, plan, phones):
         ex.cmds += [("check",), ("add", ex.sid(f if w is None else w), 0, ph), ("check",), ("scan",)]
         out.append(ex)
     out += layout_probes(rng, plan, phones, taken)
+    out += context_probes(rng, plan, phones, taken)
+    return out
+
+
+def context_probes(rng, plan, phones, taken):
+    """Words whose first two / last two phones begin / end no word of tests/data/turtle.dic, so that the word-initial and
+    word-final context tables have to be filled on demand, for every length: 2, 3, 4, 6 phones, then three-phone and
+    longer words that find the table of their ending already filled; one-phone words; as words and as alternates.
+    The sentences are decoded on the live decoder and on a twin that reads the same words from its dictionary file."""
+    out = []
+    W = [(b"forwardd", "F AO R W ER D"), (b"fwd", "W ER D"), (b"tenn", "T EH N N"), (b"enn", "EH N N"), (b"mi", "M IY"),
+         (b"ten(2)", "T EH N N"), (b"go(2)", "G OW OW"), (b"meters(2)", "M IY T ER ZH"), (b"zhz", "ZH Z"), (b"oyzh", "OY ZH"),
+         (b"uhoy", "UH OY ZH"), (b"zh", "ZH"), (b"oy", "OY"), (b"oy(2)", "UH"), (b"thzhth", "TH ZH TH")]
+    ends, begs, singles = known_pairs("turtle")
+    for w, pr in W[:5] + W[8:10]:
+        t = pr.split()
+        if (t[-1], t[-2]) in ends or plan.has(w):
+            raise tlc.ModelError("tests/data/turtle.dic changed: %r %s no longer has a new ending" % (w, pr))
+    for u in (0, 1):
+        ex = Exec("probe-context-tables-u%d" % u, "turtle", "-", [w for w, _ in W] + [b"go", b"forward", b"ten", b"meters"], [])
+        S = ex.sid
+        c = ex.cmds
+        c.append(("check",))
+        if u:
+            c.append(("jsgf", 1, 1, [S(b"go"), S(b"forward"), S(b"ten"), S(b"meters")]))
+        for w, pr in W:
+            c.append(("add", S(w), u, pr.encode()))
+        c.append(("scan",))
+        c.append(("jsgf", 2, 1, [S(b"go"), S(b"forwardd"), S(b"tenn"), S(b"meters")]))
+        c.append(("align", 2, 0, [S(b"go"), S(b"fwd"), S(b"ten(2)"), S(b"meters(2)")]))
+        c.append(("jsgf", 2, 1, [S(b"go"), S(b"forward"), S(b"ten"), S(b"meters")]))      # (through the new alternates)
+        c.append(("align", 2, 0, [S(b"zh"), S(b"oy"), S(b"uhoy"), S(b"thzhth"), S(b"oyzh")]))
+        c.append(("check",))
+        c.append(("scan",))
+        out.append(ex)
     return out
 
 
@@ -672,7 +714,7 @@ def tour_execs(rng, plan_by_case, phones, cfgs, broken, max_len, variants):
     """cfgs: list of (tag, cfg file, dcase, pre).  Returns (execs, tlc results, n_edges)."""
     execs, results, n_edges = [], [], 0
     avoid1 = "one-letter-phones" in broken
-    with concurrent.futures.ThreadPoolExecutor(max_workers=4) as tp:
+    with concurrent.futures.ThreadPoolExecutor(max_workers=scaled(4)) as tp:
         exported = list(tp.map(lambda c: tlc.run("MC_dict.tla", c[1], SPEC, workers=3, timeout=1500, heap="6g"), cfgs))
     for (tag, cfg, dcase, pre), r in zip(cfgs, exported):
         if r.violated:
@@ -1122,7 +1164,7 @@ class Driver:
         def one(g):
             return tracecheck.validate(SPEC, "DictTrace.tla", "DictTrace.cfg", g, self.ctx.work, timeout=2400,
                                        max_fail=max_fail, heap="6g")
-        with concurrent.futures.ThreadPoolExecutor(max_workers=max(1, len(groups))) as pool:
+        with concurrent.futures.ThreadPoolExecutor(max_workers=max(1, min(len(groups), scaled(12)))) as pool:
             res = list(pool.map(one, groups))
         acc, fails, unexamined = 0, [], set()
         for g, (a, f, tl) in zip(groups, res):
@@ -1321,7 +1363,7 @@ def run_tlc_models(rep, cfgs, workers_each, par):
     def one(c):
         return c, tlc.run(module(c), c[0], SPEC, workers=workers_each, timeout=2400,
                           coverage=c[1] in ("ref", "abs", "parse"), heap="6g")
-    with concurrent.futures.ThreadPoolExecutor(max_workers=par) as pool:
+    with concurrent.futures.ThreadPoolExecutor(max_workers=scaled(par)) as pool:
         res = list(pool.map(one, cfgs))
     for c, r in res:
         cfg, kind, expect = c
